@@ -3,6 +3,7 @@ package rag
 import (
 	"fmt"
 	"strings"
+	"unicode/utf8"
 )
 
 // SizeUnit defines the unit of measurement for chunk sizes
@@ -496,6 +497,10 @@ func findWordBoundaryNear(text string, targetPos int) int {
 		}
 	}
 
+	// No break opportunity nearby: never split inside a UTF-8 sequence
+	for targetPos > 0 && !utf8.RuneStart(text[targetPos]) {
+		targetPos--
+	}
 	return targetPos
 }
 
